@@ -36,7 +36,7 @@ invariant_except_break
 invariant
     batches(env.log@) =~= handled(env.log@), // OBL:C01+C02+C08.worker.each_batch_goes_to_the_handler_exactly_once
     jobtasks.tasks@ =~= adopted && jobtasks.quit_tasks@ == 0, // OBL:C08.worker.job_tasks_are_all_kept_for_the_final_join
-    adopted =~= env.created@, // OBL:C08.worker.every_created_job_is_held_by_the_worker
+    adopted =~= env.created@, // OBL:C08+C06.worker.every_created_job_is_held_by_the_worker
 after:
 // (a non-isolated loop's `ensures` is neither checked nor assumed by Verus: every way out of the loop continues here)
 proof {
@@ -52,15 +52,15 @@ proof {
     // abort: nothing more is done (the job tasks are aborted and their children killed when the sets are dropped: LateJoinSet::drop, kill_on_drop)
     assert(quit_seen == Some(QuitManner::Abort) ==> env.log@ == log_at_quit); // OBL:C08.worker.abort_quits_at_once
     // graceful: every job is stopped with the requested signal and grace and deleted, and the worker waits for all of it
-    assert(forall|signal: Signal, grace: Duration| quit_seen == Some(QuitManner::Graceful { signal, grace }) ==> graceful_quit_done(log_at_quit, env.log@, drained, jobs_at_quit, adopted, signal, grace)); // OBL:C08.worker.graceful_quit_stops_every_job_and_waits_for_all
+    assert(forall|signal: Signal, grace: Duration| quit_seen == Some(QuitManner::Graceful { signal, grace }) ==> graceful_quit_done(log_at_quit, env.log@, drained, jobs_at_quit, adopted, signal, grace)); // OBL:C08+C06.worker.graceful_quit_stops_every_job_and_waits_for_all
 }
 //@ loop over `action.new`
 let ghost ad0 = adopted; let ghost jm0 = jobs.m@;
 invariant
     0 <= $IT.pos@ <= $IT.v@.len(), $IT.v@ == newjobs,
     jobtasks.tasks@ =~= adopted && jobtasks.quit_tasks@ == 0, // OBL:C08.worker.job_tasks_are_all_kept_for_the_final_join
-    adopted =~= ad0.union(tasks_of(newjobs, $IT.pos@)), // OBL:C08.worker.every_created_job_is_held_by_the_worker
-    forall|i: int| 0 <= i < $IT.pos@ ==> jobs.m@.contains_key((#[trigger] newjobs[i]).0) && jobs.m@[newjobs[i].0] == newjobs[i].1.0, // OBL:C08.worker.every_created_job_is_held_by_the_worker
+    adopted =~= ad0.union(tasks_of(newjobs, $IT.pos@)), // OBL:C08+C06.worker.every_created_job_is_held_by_the_worker
+    forall|i: int| 0 <= i < $IT.pos@ ==> jobs.m@.contains_key((#[trigger] newjobs[i]).0) && jobs.m@[newjobs[i].0] == newjobs[i].1.0, // OBL:C08+C06.worker.every_created_job_is_held_by_the_worker
 body_end:
 proof { adopted = adopted.insert(task); }
 //@ loop over `jobs.drain()`
@@ -68,7 +68,7 @@ let ghost dr = $IT.v@;
 proof { drained = dr; }
 invariant
     0 <= $IT.pos@ <= $IT.v@.len(), $IT.v@ == dr,
-    env.log@ =~= log_at_quit + spawns(dr, $IT.pos@, signal, grace), // OBL:C08.worker.graceful_quit_stops_every_job_and_waits_for_all
+    env.log@ =~= log_at_quit + spawns(dr, $IT.pos@, signal, grace), // OBL:C08+C06.worker.graceful_quit_stops_every_job_and_waits_for_all
     tasks.quit_tasks@ == $IT.pos@, tasks.tasks@ =~= Set::<TaskH>::empty(),
     env.closed@ == false || true,
 ensures
@@ -83,7 +83,7 @@ proof {
     quit_seen = Some(manner); log_at_quit = env.log@; jobs_at_quit = jobs.m@;
     // a quit requested in the very action that created a job covers that job too: it is in the map (so it is stopped and deleted) and its task
     // is in the set that is joined (or aborted when the set is dropped)
-    assert(adopted =~= env.created@); // OBL:C08.worker.every_created_job_is_held_by_the_worker
-    assert(forall|i: int| 0 <= i < newjobs.len() ==> jobs.m@.contains_key((#[trigger] newjobs[i]).0) && jobs.m@[newjobs[i].0] == newjobs[i].1.0); // OBL:C08.worker.every_created_job_is_held_by_the_worker
+    assert(adopted =~= env.created@); // OBL:C08+C06.worker.every_created_job_is_held_by_the_worker
+    assert(forall|i: int| 0 <= i < newjobs.len() ==> jobs.m@.contains_key((#[trigger] newjobs[i]).0) && jobs.m@[newjobs[i].0] == newjobs[i].1.0); // OBL:C08+C06.worker.every_created_job_is_held_by_the_worker
 }
 //@ end
